@@ -22,9 +22,11 @@
 (* tokens into characters (every token is its own text, the token WS is    *)
 (* rendered as an arbitrary non-empty whitespace run).                     *)
 (*                                                                         *)
-(* Shapes are given per input POSITION (Seq of Seq of Nat); the harness    *)
-(* keys them by name.  Keys are sequences of integers, ALL (-1) stands for *)
-(* the full slice.  Linear indices are 0-based as in the code.             *)
+(* Shape() takes the shapes per input POSITION (Seq of Seq of Nat); the    *)
+(* code takes MAPPINGS keyed by name: ShapeNamed / Presentations give the  *)
+(* mappings in every insertion order, and the harness builds exactly those *)
+(* dicts.  Keys are sequences of integers, ALL (-1) stands for the full    *)
+(* slice.  Linear indices are 0-based as in the code.                      *)
 (***************************************************************************)
 EXTENDS Naturals, Integers, Sequences, FiniteSets
 
@@ -256,6 +258,48 @@ InputKeys(m, ext, l) ==
 KeyDenotes(key, shape) == {e \in IndexSet(shape) : \A k \in DOMAIN shape : key[k] = ALL \/ key[k] = e[k]}
 
 ---------------------------------------------------------------------------
+(* ARGUMENTS AS MAPPINGS.  The code receives input_shapes and internal_shapes as mappings keyed by   *)
+(* array NAME ("Shapes of the inputs, keyed by name").  A Python dict also has an insertion order;    *)
+(* that order is no part of the mapping.  A PRESENTATION of a mapping is the sequence of its entries  *)
+(* [name, shape] in insertion order; two presentations of one mapping differ by a permutation only.   *)
+(* Shape() above takes the shapes by input POSITION; ShapeNamed is shape() as the code is called:     *)
+(* every array finds ITS shape under its name, wherever the entry stands in the presentation - in     *)
+(* the rank check as well as in the dimension computation.                                            *)
+Entry(n, sh)       == [name |-> n, shape |-> sh]
+EntryNames(p)      == [q \in DOMAIN p |-> p[q].name]
+(* p presents a mapping with exactly these keys (missing / extra names are outside the property) *)
+Presents(p, names) == SeqDistinct(EntryNames(p)) /\ SeqElems(EntryNames(p)) = SeqElems(names)
+Lookup(p, n)       == p[CHOOSE q \in DOMAIN p : p[q].name = n].shape
+Perms(n)           == {f \in [1..n -> 1..n] : \A i, j \in 1..n : i # j => f[i] # f[j]}
+(* the mapping names[x] |-> shapes[x], entry f[q] inserted q-th *)
+Present(names, shapes, f) == [q \in DOMAIN f |-> Entry(names[f[q]], shapes[f[q]])]
+ByPosition(names, p)      == [x \in DOMAIN names |-> Lookup(p, names[x])]
+
+(* internal_shapes: one entry per output, or no mapping at all (pint = <<>>, Python: None); all       *)
+(* outputs have the same shape, the sizes are read under the name of the FIRST output.                *)
+ShapeNamed(m, pin, pint) ==
+    Shape(m, ByPosition(InputNames(m), pin), IF pint = <<>> THEN <<>> ELSE Lookup(pint, m.outs[1].name))
+
+(* the presentations of the arguments (insh by position, the same internal sizes for every output):   *)
+(* every insertion order of the inputs x every insertion order of the outputs.  `withint` = FALSE:    *)
+(* internal_shapes is not passed.  A sequence, the first element is the order of the MapSpec itself.  *)
+IdPerm(n)     == [q \in 1..n |-> q]
+RECURSIVE LexEnum(_)                                                \* a set of equally long sequences, ascending
+LexEnum(S)    == IF S = {} THEN <<>>
+                 ELSE LET f == CHOOSE g \in S : \A h \in S : g = h \/ LexLess(g, h)
+                      IN  <<f>> \o LexEnum(S \ {f})
+PermSeq(n)    == LexEnum(Perms(n))                                  \* the identity is the least permutation
+Presentations(m, insh, internal, withint) ==
+    LET fs == PermSeq(Len(m.ins))
+        gs == IF withint THEN PermSeq(Len(m.outs)) ELSE <<IdPerm(0)>>
+    IN  [q \in 1..(Len(fs) * Len(gs)) |->
+            LET f == fs[((q - 1) \div Len(gs)) + 1]
+                g == gs[((q - 1) % Len(gs)) + 1]
+            IN  [pin  |-> Present(InputNames(m), insh, f),
+                 pint |-> IF withint THEN Present(OutputNames(m), [o \in DOMAIN m.outs |-> internal], g) ELSE <<>>,
+                 inorder |-> f = IdPerm(Len(m.ins))]]
+
+---------------------------------------------------------------------------
 (* rename / add_axes.  `pairs` is a sequence of <<old, new>> with distinct olds.                   *)
 Renamed(pairs, n) == IF \E q \in DOMAIN pairs : pairs[q][1] = n
                      THEN pairs[CHOOSE q \in DOMAIN pairs : pairs[q][1] = n][2] ELSE n
@@ -355,6 +399,22 @@ LawShape(m, insh, internal) ==
                    m.ins[x].axes[k] # COLON => sh.shape[FirstPos(OutAxes(m), m.ins[x].axes[k])] = insh[x][k]
              /\ KeyShapeOK(m, ExtShape(sh))
              /\ Cardinality(IndexSet(ExtShape(sh))) = SeqProduct(ExtShape(sh))
+
+(* shape() is a function of the MAPPINGS it is given, not of their presentation: whatever the      *)
+(* insertion order of input_shapes / internal_shapes, every input is rank-checked against, and     *)
+(* sized by, the shape under its own name.  So a valid call stays valid (same shape, same mask)    *)
+(* and a rank / dimension / internal-size mismatch stays THAT mismatch under every reordering -    *)
+(* also for shapes that sit under the wrong names (two inputs with their shapes exchanged).        *)
+LawShapeByName(m, insh, internal, withint) ==
+    LET ps == Presentations(m, insh, internal, withint)
+    IN  /\ Len(ps) = Cardinality(Perms(Len(m.ins))) * (IF withint THEN Cardinality(Perms(Len(m.outs))) ELSE 1)
+        /\ ps[1].inorder /\ EntryNames(ps[1].pin) = InputNames(m)
+        /\ \A q \in DOMAIN ps :
+              /\ Presents(ps[q].pin, InputNames(m))
+              /\ withint => Presents(ps[q].pint, OutputNames(m))
+              /\ ByPosition(InputNames(m), ps[q].pin) = insh
+              /\ ShapeNamed(m, ps[q].pin, ps[q].pint) = Shape(m, insh, IF withint THEN internal ELSE <<>>)
+        /\ \A q, r \in DOMAIN ps : q # r => (ps[q].pin # ps[r].pin \/ ps[q].pint # ps[r].pint)
 
 (* output_key: over 0..N-1 a bijection onto the output positions, increasing in row-major          *)
 (* (lexicographic) order, inverse of Ravel.                                                        *)
